@@ -1,12 +1,204 @@
 /-
-C09 — a change of process identity never loses or double-counts updates (work in progress).
+C09 — a change of process identity (fork) never loses or double-counts updates.
+
+Model M: `Model/Values.lean`, the closure state of `values.MultiProcessValue` (`pid`, `files`, `values`) plus the
+directory; ops `construct | inc | set | get | setPid`, every op except `setPid` starting with
+`__check_for_pid_change` exactly as the code (shape checked by the extractor, `extract_ok`).
+All theorems are about histories of ANY length with ANY number of identity changes at ANY positions, including a
+return to an identity seen before.  Values are an abstract type; the algebraic laws conservation needs are hypotheses
+and `Int` satisfies them (examples).
+
+Genuine restriction (probed on the real code — candidate finding): `conservation` and `per_pid_gauge` assume that no two
+LIVE value objects share one (file prefix, key) (`huniq`).  Two live objects on one key (two metrics of the same name in
+different registries, or a child kept after `remove()` while `labels()` re-created it) each keep their own cached float
+and overwrite each other's writes: `two_objects_lose_updates` shows M doing exactly that (3 increments, cell = 2), as the
+real code does.  `writes_only_own_files` and `rebinding_reads_current` need no such assumption.
 -/
-import PromVerif.Model.Values
-import PromVerif.Spec.Multiprocess
+import PromVerif.Lemmas.MultiprocessHistory
 
 namespace PromVerif.Props.C09
-open PromVerif.Generated.Multiprocess
+open PromVerif.Py PromVerif.Generated.Multiprocess
+open PromVerif.Model.Multiprocess PromVerif.Model.Values PromVerif.Spec.Multiprocess
+set_option autoImplicit false
 
+/-- the extractor found `__init__`/`inc`/`set`/`get` calling `__check_for_pid_change` first under the lock, the check
+    resetting EVERY value, `__reset` re-reading value and timestamp, and the file-name pattern -/
 theorem extract_ok : extractOk = true := by decide
+
+variable {V : Type}
+
+/-- **writes_only_own_files.**  In any state reachable by any history, one more call under identity `p` leaves every
+    file that is not named `<prefix>_<p>.db` exactly as it was (content and existence); `setPid` touches nothing.
+    In particular the previous identity's files are never written by the new process. -/
+theorem writes_only_own_files (vo : VOps V) (pid0 : Str) (ops : List (Op V)) (op : Op V) (fn : Str)
+    (hne : ∀ pre, fn ≠ fileName pre (step vo (run vo (St.init pid0) ops) op).1.pid) :
+    AL.get? (step vo (run vo (St.init pid0) ops) op).1.disk fn = AL.get? (run vo (St.init pid0) ops).disk fn :=
+  step_files vo _ op (run_bound vo ops _ (bound_init pid0)) fn hne
+
+/-- the identity a non-`setPid` call runs under is the current one, and it becomes the remembered one -/
+theorem runs_under_current (vo : VOps V) (pid0 : Str) (ops : List (Op V)) (op : Op V) (h : ∀ p, op ≠ .setPid p) :
+    (step vo (run vo (St.init pid0) ops) op).1.pid = (run vo (St.init pid0) ops).actual := by
+  have := (step_pid vo (run vo (St.init pid0) ops) op (run_bound vo ops _ (bound_init pid0))).2
+  cases op with
+  | setPid p => exact absurd rfl (h p)
+  | _ => exact this
+
+/-- **rebinding_reads_current.**  After an identity change, the check that opens the next call re-binds EVERY live
+    value to the new identity's file of its prefix, its entry exists there, its cached pair is what that file holds,
+    and that is what the file held before (zero if the entry did not exist): updates continue from there. -/
+theorem rebinding_reads_current (vo : VOps V) (pid0 : Str) (ops : List (Op V))
+    (hchg : (run vo (St.init pid0) ops).pid ≠ (run vo (St.init pid0) ops).actual) :
+    let st := run vo (St.init pid0) ops
+    let st1 := checkPid vo st
+    st1.pid = st.actual ∧
+    ∀ v ∈ st1.values,
+      v.file = fileName (filePrefix v.params) st.actual ∧
+      (cellGet st1.disk v.file v.key).isSome = true ∧
+      cellVal vo st1.disk v.file v.key = (v.value, v.ts) ∧
+      cellVal vo st1.disk v.file v.key = cellVal vo st.disk v.file v.key := by
+  intro st st1
+  have hb := run_bound vo ops _ (bound_init (V := V) pid0)
+  have hc := checkPid_post vo st hb
+  refine ⟨hc.pid, ?_⟩
+  intro v hv
+  have := hc.bound.bound v hv
+  exact ⟨by rw [this.2, hc.pid], hc.bound.exist v hv, hc.cached (Or.inl hchg) v hv, hc.cellval _ _⟩
+
+/-- … and after the whole call (any op) every cache is still what its file holds, provided live objects have
+    pairwise different (prefix, key) -/
+theorem caches_coherent (vo : VOps V) (pid0 : Str) (ops : List (Op V))
+    (huniq : ((run vo (St.init pid0) ops).values.map (fun v => idOf v.params)).Nodup) :
+    ∀ v ∈ (run vo (St.init pid0) ops).values,
+      cellVal vo (run vo (St.init pid0) ops).disk v.file v.key = (v.value, v.ts) :=
+  (run_inv vo ops _ (inv_init vo pid0) huniq).cached
+
+/-- **per_pid_gauge** (and every other series): after any history, the entry of series `(pre, k)` in identity `p`'s
+    file is the fold of the updates issued UNDER `p` alone — increments add, a set replaces — starting from zero;
+    updates issued under other identities never reach it. -/
+theorem per_pid_gauge (vo : VOps V) (pid0 : Str) (ops : List (Op V)) (pre : Str) (k : Key) (p : Str)
+    (hp : '_' ∉ p) (hids : IdsOK pid0 ops)
+    (huniq : ((run vo (St.init pid0) ops).values.map (fun v => idOf v.params)).Nodup) :
+    cellVal vo (run vo (St.init pid0) ops).disk (fileName pre p) k = ownCell vo p (updLog vo pre k pid0 [] ops) := by
+  have := run_cell vo pre k p hp ops (St.init pid0) (inv_init vo pid0) huniq hids
+  rw [this, ownCell_eq]
+  rfl
+
+/-- identity `p`'s file holds `p`'s last set when that is the last thing `p` did to the series -/
+theorem own_last_set (vo : VOps V) (p : Str) (us : List (Upd V)) (v t : V) :
+    ownCell vo p (us ++ [Upd.set p v t]) = (v, t) := by
+  rw [ownCell_eq, List.foldl_append]
+  simp [ownStep]
+
+theorem aggSum_zeros (vo : VOps V) (hzero : ∀ a, vo.add vo.zero a = a) (l : List Str) :
+    aggSum vo (l.map (fun _ => vo.zero)) = vo.zero := by
+  unfold aggSum
+  induction l with
+  | nil => rfl
+  | cons x r ih => simp only [List.map_cons, List.foldl_cons, hzero]; exact ih
+
+/-- conservation without assuming `zero` neutral: the sum over all identities' files is the left fold of the
+    increments starting from the sum of as many zeros as there are identities -/
+theorem conservation_general (vo : VOps V) (hcomm : ∀ a b, vo.add a b = vo.add b a)
+    (hassoc : ∀ a b c, vo.add (vo.add a b) c = vo.add a (vo.add b c))
+    (pid0 : Str) (ops : List (Op V)) (pre : Str) (k : Key) (pids : List Str) (hnd : pids.Nodup)
+    (hpids : ∀ p ∈ pids, '_' ∉ p) (hids : IdsOK pid0 ops)
+    (huniq : ((run vo (St.init pid0) ops).values.map (fun v => idOf v.params)).Nodup)
+    (hinc : ∀ u ∈ updLog vo pre k pid0 [] ops, ∃ q a, u = Upd.inc q a ∧ q ∈ pids) :
+    aggSum vo (pids.map (fun p => (cellVal vo (run vo (St.init pid0) ops).disk (fileName pre p) k).1))
+      = (updLog vo pre k pid0 [] ops).foldl
+          (fun acc u => match u with | .inc _ a => vo.add acc a | .set _ _ _ => acc)
+          (aggSum vo (pids.map (fun _ => vo.zero))) := by
+  have hcell : pids.map (fun p => (cellVal vo (run vo (St.init pid0) ops).disk (fileName pre p) k).1)
+      = pids.map (fun p => ((updLog vo pre k pid0 [] ops).foldl (ownStep vo p) (vo.zero, vo.zero)).1) := by
+    apply List.map_congr_left
+    intro p hp
+    rw [per_pid_gauge vo pid0 ops pre k p (hpids p hp) hids huniq, ownCell_eq]
+  rw [hcell]
+  exact sum_ownCells vo hcomm hassoc pids hnd _ hinc (fun _ => (vo.zero, vo.zero))
+
+/-- **conservation.**  For any history from a fresh directory — any number of identity changes at any positions,
+    returning to earlier identities included — the sum over ALL identities' files of the entry of series `(pre, k)`
+    equals the sum of all increments ever issued to it, in a commutative monoid, provided the series is only
+    incremented (`hinc`; a `set`, e.g. `Counter.reset()`, deliberately overwrites).  `pids` is any duplicate-free list
+    containing every identity used; files of other identities do not exist (their entries read as zero). -/
+theorem conservation (vo : VOps V) (hcomm : ∀ a b, vo.add a b = vo.add b a)
+    (hassoc : ∀ a b c, vo.add (vo.add a b) c = vo.add a (vo.add b c)) (hzero : ∀ a, vo.add vo.zero a = a)
+    (pid0 : Str) (ops : List (Op V)) (pre : Str) (k : Key) (pids : List Str) (hnd : pids.Nodup)
+    (hpids : ∀ p ∈ pids, '_' ∉ p) (hids : IdsOK pid0 ops)
+    (huniq : ((run vo (St.init pid0) ops).values.map (fun v => idOf v.params)).Nodup)
+    (hinc : ∀ u ∈ updLog vo pre k pid0 [] ops, ∃ q a, u = Upd.inc q a ∧ q ∈ pids) :
+    aggSum vo (pids.map (fun p => (cellVal vo (run vo (St.init pid0) ops).disk (fileName pre p) k).1))
+      = incTotal vo (updLog vo pre k pid0 [] ops) := by
+  rw [conservation_general vo hcomm hassoc pid0 ops pre k pids hnd hpids hids huniq hinc, aggSum_zeros vo hzero]
+  rfl
+
+/-! ### non-vacuity and the counter-example behind `huniq` -/
+
+/-- `Int` as value type: a commutative monoid with a strict order -/
+def intOps : VOps Int := ⟨0, (· + ·), (fun a b => decide (a < b)), (fun a b => decide (a ≤ b)), (fun x => x != 0)⟩
+
+def pCounter : Params := ⟨"counter".toList, "c".toList, "c_total".toList, [], [], "help".toList, []⟩
+def pGauge : Params := ⟨"gauge".toList, "g".toList, "g".toList, ["l".toList], ["x".toList], "help".toList, "all".toList⟩
+
+/-- a history with three identity changes, returning to the first identity, two metric types -/
+def demoOps : List (Op Int) :=
+  [.construct pCounter, .inc 0 2, .setPid "2".toList, .construct pGauge, .inc 0 3, .set 1 7 none,
+   .setPid "1".toList, .inc 0 4, .set 1 5 (some 9), .setPid "2".toList, .inc 0 1]
+
+/-- executable form of hypothesis `hinc` -/
+def incsWithin (pids : List Str) : List (Upd Int) → Bool
+  | [] => true
+  | .inc q _ :: r => pids.contains q && incsWithin pids r
+  | .set _ _ _ :: _ => false
+
+theorem incsWithin_sound (pids : List Str) (us : List (Upd Int)) (h : incsWithin pids us = true) :
+    ∀ u ∈ us, ∃ q a, u = Upd.inc q a ∧ q ∈ pids := by
+  induction us with
+  | nil => intro u hu; cases hu
+  | cons x r ih =>
+    cases x with
+    | set q v t => simp [incsWithin] at h
+    | inc q a =>
+      simp only [incsWithin, Bool.and_eq_true, List.contains_iff_mem] at h
+      intro u hu
+      rcases List.mem_cons.mp hu with e | e
+      · exact ⟨q, a, e, h.1⟩
+      · exact ih h.2 u e
+
+theorem demo_ids : IdsOK (V := Int) "1".toList demoOps := by
+  refine ⟨by decide, ?_⟩
+  intro p hp
+  simp only [demoOps, List.mem_cons, List.not_mem_nil, or_false, reduceCtorEq, false_or, Op.setPid.injEq] at hp
+  rcases hp with h | h | h <;> subst h <;> decide
+
+theorem demo_uniq : ((run intOps (St.init "1".toList) demoOps).values.map (fun v => idOf v.params)).Nodup := by
+  decide
+
+/-- the hypotheses of `conservation` are satisfiable by a history with identity changes, and its conclusion computes:
+    2 + 3 + 4 + 1 = 10 spread over `counter_1.db` (6) and `counter_2.db` (4) -/
+example : aggSum intOps (["1".toList, "2".toList].map (fun p =>
+      (cellVal intOps (run intOps (St.init "1".toList) demoOps).disk (fileName "counter".toList p) (mmapKey pCounter)).1))
+    = incTotal intOps (updLog intOps "counter".toList (mmapKey pCounter) "1".toList [] demoOps) :=
+  conservation intOps Int.add_comm Int.add_assoc Int.zero_add "1".toList demoOps "counter".toList (mmapKey pCounter)
+    ["1".toList, "2".toList] (by decide) (by decide) demo_ids demo_uniq (incsWithin_sound _ _ (by decide))
+
+example : incTotal intOps (updLog intOps "counter".toList (mmapKey pCounter) "1".toList [] demoOps) = 10 := by decide
+
+/-- per-pid gauge on the same history: identity 1's file holds its own last set (5 at time 9), identity 2's holds 7 -/
+example : cellVal intOps (run intOps (St.init "1".toList) demoOps).disk (fileName "gauge_all".toList "1".toList) (mmapKey pGauge)
+    = (5, 9) := by decide
+example : cellVal intOps (run intOps (St.init "1".toList) demoOps).disk (fileName "gauge_all".toList "2".toList) (mmapKey pGauge)
+    = (7, 0) := by decide
+
+/-- a state in which `rebinding_reads_current` applies (identity changed, next call pending) -/
+example : (run intOps (St.init "1".toList) (demoOps.take 7)).pid ≠ (run intOps (St.init "1".toList) (demoOps.take 7)).actual := by
+  decide
+
+/-- **the counter-example behind `huniq`** (M exhibits the candidate finding): two live value objects on one key, three
+    increments issued, the file holds 2 -/
+theorem two_objects_lose_updates :
+    cellVal intOps (run intOps (St.init "1".toList)
+        [.construct pCounter, .construct pCounter, .inc 0 1, .inc 1 1, .inc 0 1]).disk
+      (fileName "counter".toList "1".toList) (mmapKey pCounter) = (2, 0) := by decide
 
 end PromVerif.Props.C09
